@@ -747,6 +747,16 @@ func gen(r *rand.Rand, tier string) []string {
 		}
 	}
 
+	// M3. an entry of 2 MiB (above every "sane" fixed buffer size), two passes
+	for _, v := range vs {
+		switch v.kind {
+		case c08cell.KURI, c08cell.KURIPost, c08cell.KRaw, c08cell.KJSONLine, c08cell.KGenJSON:
+			add(cell{v: v, passes: 2, n: 2, cons: 1, cap: 7, big: 2 << 20, bigat: 2})
+		case c08cell.KGRPCJSON:
+			add(cell{v: v, passes: 2, n: 2, cons: 1, cap: 7, big: 2 << 20, bigat: 2, mas: 3 << 20})
+		}
+	}
+
 	// G. random larger cells, all modes
 	extra := 400
 	maxN, maxL, maxP = 12, 30, 6
